@@ -36,7 +36,7 @@ for d in sorted(glob.glob(os.path.join(H, 'seeded', '*'))):
     if isinstance(need, list): need = '; '.join(need)
     need = re.sub(r'\s+', ' ', str(need))[:260]
     rows.append('| `seeded/%s` | %s | %s | %s | %s | %s |' % (os.path.basename(d), meta.get('property', '?'), esc(need),
-                ver.get('first_built', '?'), esc(ver.get('now', '?')), esc(', '.join(ver.get('others', [])) or '–')))
+                ver.get('first_built', '?'), esc(ver.get('now', '?') + ((' - masked by ' + ver['masked_by']) if ver.get('masked_by') and 'MISSED' in ver.get('now', 'MISSED') else '')), esc(', '.join(ver.get('others', [])) or '–')))
 st = '\n'.join(rows)
 p = os.path.join(H, 'DESIGN.md')
 s = open(p).read()
